@@ -952,24 +952,10 @@ def uri_encode(v, s):
     return v.ctx.str_fn('uri_encode', s) if _sym(s) else v.real('falcon.util.uri:encode')(s)
 
 
-_NO_UPPER_ASCII = None
-
-
-def _lower_axioms(s_t, r_t, f):
-    """str.lower() leaves a string of ASCII characters other than A-Z as it is (so that counter-models replay: without it the
-    solver may 'lower' any Accept value into one that contains +json / +xml)."""
-    global _NO_UPPER_ASCII
-    if _NO_UPPER_ASCII is None:
-        _NO_UPPER_ASCII = z3.Star(z3.Union(z3.Range(z3.StringVal(chr(0)), z3.StringVal('@')), z3.Range(z3.StringVal('['), z3.StringVal(chr(127)))))
-    return [mk_bool(z3.Implies(z3.InRe(s_t, _NO_UPPER_ASCII), r_t == s_t))]
-
-
 def _error_setup(reg, ex):
     import xml.etree.ElementTree as et
 
     import falcon.util.uri as uri
-
-    ex.str_axioms['lower'] = _lower_axioms
 
     reg.add_model(uri.encode, lambda I, s: I.ctx.str_fn('uri_encode', s) if _sym(s) else uri.encode(s))
     import falcon.util.misc as misc
